@@ -198,6 +198,23 @@ def build_exception(spec):
 # server side target
 # ------------------------------------------------------------------------------------------------
 _target_cls = None
+RAISER = "innermost_raiser_fn"
+
+
+def innermost_raiser_fn(x):
+    raise x
+
+
+def descend_then_raise(x, depth):
+    """the failure happens `depth` frames below the exposed member (recursive walks, layered frameworks): the remote traceback
+    has to show where the exception was raised all the same"""
+    if depth > 0:
+        return descend_then_raise(x, depth - 1)
+    return innermost_raiser_fn(x)
+
+
+def _raise(spec):
+    descend_then_raise(build_exception(spec), int(spec.get("depth", 0)))
 
 
 def target_class():
@@ -221,11 +238,11 @@ def target_class():
                 return "stored"
 
             def raise_it(self, spec):
-                raise build_exception(spec)
+                _raise(spec)
 
             def raise_first(self, spec):
                 self.kept = build_exception(spec)
-                raise self.kept
+                descend_then_raise(self.kept, int(spec.get("depth", 0)))
 
             def raise_second(self):
                 # the very same exception OBJECT is raised once more, from another place (a stored failure reported again)
@@ -233,16 +250,16 @@ def target_class():
 
             @property
             def prop(self):
-                raise build_exception(self.spec)
+                _raise(self.spec)
 
             @prop.setter
             def prop(self, value):
-                raise build_exception(self.spec)
+                _raise(self.spec)
 
             def gen(self, spec, k):
                 for i in range(k):
                     yield i
-                raise build_exception(spec)
+                _raise(spec)
 
         _target_cls = Target
     return _target_cls
@@ -712,6 +729,10 @@ def _judge_traceback(case, x, clsname, viol):
     fn = FUNC_OF_KIND[case["kind"]]
     if fn not in text or clsname not in text:
         viol("traceback-content:" + kg, "remote traceback text does not mention %r and %r: %s" % (fn, clsname, short(text, 200)))
+    elif case["kind"] != "reraise" and RAISER not in text:
+        # (a re-raised stored exception is raised by raise_second itself)
+        viol("traceback-content:raising-frame-missing", "remote traceback text does not show the frame that raised (%r, %d frames below the member): ...%s" % (
+            RAISER, int(case["spec"].get("depth", 0)), text[-300:]))
 
 
 def _lost_signature(case):
@@ -1034,6 +1055,9 @@ def case_strategy(draw, servertype, ser):
     detailed = draw(st.integers(0, 3)) == 3
     unser = draw(st.integers(0, 13))
     spec = draw(spec_strategy(with_local=True))
+    depth = draw(st.sampled_from([0, 0, 0, 0, 1, 2, 7, 55, 120]))
+    if depth:
+        spec["depth"] = depth
     if unser < 4 and spec["special"] is None:
         # the "cannot be serialised" family on a random class: offending value as attribute
         spec["special"] = {"unser": ["socket", "lambda", "object", "slots-unset"][unser], "where": "attr"}
@@ -1086,6 +1110,8 @@ def _labels(case):
         l += ["kind:" + case["kind"], "servertype:" + case["servertype"], "family:" + family(case)]
         if case.get("detailed"):
             l.append("config:DETAILED_TRACEBACK")
+        d = int(spec.get("depth", 0))
+        l.append("raised-%s-frames-below-the-member" % ("0" if d == 0 else "1-9" if d < 10 else "50+"))
     sp = spec.get("special") or {}
     for k in sorted(sp):
         l.append("special:" + k)
